@@ -1,6 +1,6 @@
 import Qryn.Proofs.ProfDiffE2E
 import Qryn.Proofs.ProfWrap64
-import Qryn.Proofs.PprofStacks2
+import Qryn.Proofs.PprofWellFormed
 import Qryn.Gen.ProfTreeShape
 import Qryn.Gen.ProfExtShape
 import Qryn.Prof.ExtPins
@@ -729,6 +729,29 @@ theorem merge_order_free_per_stack (Q : List RLoc → Bool) (Ps Qs : List PProfi
     stackTotal Q st j = stackTotal Q st' j := by
   rw [merge_sums_per_stack Q Ps st h hs, merge_sums_per_stack Q Qs st' h' hs']
   exact sum_perm_int (hp.map _)
+
+
+open Qryn.Prof.Pprof in
+/-- **merge_conserves_values_wellformed.** For payloads whose references resolve (`WellFormed`: what pprof's `CheckValid`
+    demands, hence what the writer stores) nothing is dropped on the way in: per sample type the merged values add up to
+    ALL the values of all the payloads that have at least one sample and two strings. -/
+theorem merge_conserves_values_wellformed (Ps : List PProfile) (st : MState) (h : mergeAll MState.empty Ps = .ok st)
+    (hw : ∀ p ∈ Ps, WellFormed p) (j : Nat) :
+    valTotal (result st).samples j = (Ps.map (fun p => if skipped p then 0 else valTotal p.samples j)).sum := by
+  rw [merge_conserves_values Ps st h j]
+  unfold inputTotal
+  congr 1
+  apply List.map_congr_left
+  intro p hp
+  split
+  · rfl
+  · exact sanitize_keeps_values p (hw p hp) j
+
+/-- `WellFormed` is satisfiable, and so are the hypotheses of the pprof theorems (two payloads, shared function) -/
+example : Qryn.Prof.Pprof.WellFormed
+    ⟨["", "samples", "count", "main"], [⟨1, 2⟩], some ⟨1, 2⟩, [⟨[7], [5], []⟩, ⟨[], [2], []⟩], [], [⟨7, 0, 16, [⟨3, 10, 0⟩], false⟩],
+      [⟨3, 3, 3, 0, 1⟩], 0, 0, 0, 0, 0, [], 0⟩ := by
+  refine ⟨by decide, by decide, by decide, by decide⟩
 
 namespace MergeWitness
 open Qryn.Prof.Pprof
